@@ -17,7 +17,10 @@ for a in sys.argv[1:]:
     if a.startswith('--root='):
         root = a.split('=', 1)[1]
         env['PYTHONPATH'] = root
-p = subprocess.run(cmd, cwd=root, env=env, capture_output=True, text=True)
+try:
+    p = subprocess.run(cmd, cwd=root, env=env, capture_output=True, text=True, timeout=3600)
+except subprocess.TimeoutExpired:
+    print('baseline run timed out after 60 min'); sys.exit(3)
 passed = set()
 for tc in ET.parse(xml).getroot().iter('testcase'):
     if not any(ch.tag in ('failure', 'error', 'skipped') for ch in tc):
